@@ -21,9 +21,13 @@ Expected(it, t) ==
     [] it.kind = "neg"  -> ~S(it.f, t)
     [] it.kind = "and"  -> S(it.f, t) /\ S(it.h, t)
     [] it.kind = "or"   -> S(it.f, t) \/ S(it.h, t)
+(* optional it.req: sequence of <<name, observed boolean>> that must all be TRUE (observations of the  *)
+(* implementation's own equality, e.g. "re-parsed formula == first formula")                          *)
+ReqFailed(it) == IF "req" \in DOMAIN it THEN { it.req[j][1] : j \in { l \in 1..Len(it.req) : ~it.req[l][2] } } ELSE {}
 JudgeItem(k) ==
   LET it == Data.items[k] IN
   IF it.exc # "" THEN PrintT(<<"ITEM", it.id, "exception", 0, 0>>)
+  ELSE IF ReqFailed(it) # {} THEN PrintT(<<"ITEM", it.id, "req-failed", 0, 0>>) /\ PrintT(<<"REQ", it.id, ReqFailed(it)>>)
   ELSE LET bad == { t \in 1..Len(Data.trees) : S(it.r, t) # Expected(it, t) }
            ntrue == Cardinality({ t \in 1..Len(Data.trees) : S(it.f, t) })
        IN /\ PrintT(<<"ITEM", it.id, IF bad = {} THEN "ok" ELSE "differs", ntrue, Cardinality(bad)>>)
